@@ -341,6 +341,17 @@ func freshBlob(r *Rng, l int) []byte {
 	return append(b, r.Bytes(l-8)...)
 }
 
+// what disk.Put's one-byte probe of a zstd stream sees (Put for the empty digest)
+func probeByte(b []byte) (int, error) {
+	d, err := zstd.NewReader(bytes.NewReader(b))
+	if err != nil {
+		return 0, err
+	}
+	defer d.Close()
+	var x [1]byte
+	return io.ReadFull(d, x[:])
+}
+
 // runs the case; returns Coq term, text, and applies the direct oracle
 func runWrite(rep *Report, idx int, w wcase) (string, string) {
 	f := w.f
@@ -374,13 +385,31 @@ func runWrite(rep *Report, idx int, w wcase) (string, string) {
 		}
 		return int64(len(b)) == w.declSize && sha(b) == w.declHash
 	}
+	// the empty digest: Put only probes one byte of its reader (and ignores a read error)
+	emptyDigest := w.nameOK && w.declSize == 0 && w.declHash == emptySha
+	putErr, nilEarly := "EInternal", false
+	accepts := func(b []byte) bool {
+		if !emptyDigest {
+			return valid(b)
+		}
+		if !w.z {
+			return len(b) == 0
+		}
+		n, err := probeByte(b)
+		if n == 0 && err != nil && err != io.EOF {
+			nilEarly = true // undecodable: Put returns nil, possibly before the end of the stream
+		}
+		return n == 0
+	}
+	if emptyDigest {
+		putErr = "EBadRequest"
+	}
 	validAt := []bool{valid(nil)}
+	pok = append(pok, CB(accepts(nil)))
 	for _, m := range w.msgs {
 		acc = append(acc, m.data...)
 		validAt = append(validAt, valid(acc))
-	}
-	for _, v := range validAt {
-		pok = append(pok, CB(v))
+		pok = append(pok, CB(accepts(acc)))
 	}
 
 	// ---- direct oracle: the property's statement
@@ -413,7 +442,7 @@ func runWrite(rep *Report, idx int, w wcase) (string, string) {
 		if ok || after != before {
 			fail("Write with an unusable resource name (or oversized blob) succeeded or changed the cache")
 		}
-	case before: // the blob exists: early return, size or -1, still present
+	case before && !emptyDigest: // the blob exists: early return, size or -1, still present
 		want := w.declSize
 		if w.z {
 			want = -1
@@ -436,7 +465,9 @@ func runWrite(rep *Report, idx int, w wcase) (string, string) {
 			reject = true
 		}
 		if reject {
-			if ok || after {
+			if ok && emptyDigest {
+				fail("data sent for the empty-blob digest was acknowledged")
+			} else if ok || (after && !emptyDigest) {
 				fail("a Write that must be rejected succeeded or stored the blob")
 			}
 			rep.Count("write.rejected")
@@ -451,7 +482,7 @@ func runWrite(rep *Report, idx int, w wcase) (string, string) {
 	for _, m := range w.msgs {
 		ms = append(ms, fmt.Sprintf("mkMsg %s %s %d %s", cstr(m.name), CZ(m.off), len(m.data), CB(m.fin)))
 	}
-	coq := fmt.Sprintf("BWrite %d %s %s %s %s %s", maxBlob, CB(before), CList(ms), CList(pok), st, CB(after))
+	coq := fmt.Sprintf("BWrite %d %s %s %s %s %s %s %s", maxBlob, CB(before), CList(ms), CList(pok), putErr, CB(nilEarly), st, CB(after))
 	return coq, text
 }
 
@@ -487,6 +518,30 @@ func bsDriver(seed uint64, n int, outV, outJSON string, _ []string) {
 		coq, text := runWrite(rep, 0, wcase{f: fz, blob: []byte("x"), nameOK: false, what: "empty-stream"})
 		add(coq, text, true)
 		rep.Count("write.empty-stream")
+	}
+
+	// ---- regression probes (fixed in /repo c41b897 + bbc62ee): data sent for the empty-blob digest must
+	// not be acknowledged — over blobs/, and over compressed-blobs/ with decodable and undecodable data
+	for i, pr := range []struct {
+		z    bool
+		data []byte
+		what string
+	}{
+		{false, []byte("x"), "empty-digest: one byte over blobs/"},
+		{true, zenc.EncodeAll([]byte("hello"), nil), "empty-digest: zstd of non-empty data"},
+		{true, zenc.EncodeAll([]byte("hello world hello world"), nil)[:7], "empty-digest: truncated zstd frame"},
+		{true, []byte("this is not zstd at all"), "empty-digest: garbage instead of zstd"},
+		{false, nil, "empty-digest: no data over blobs/ (must be accepted)"},
+		{true, zenc.EncodeAll(nil, nil), "empty-digest: zstd of nothing (must be accepted)"},
+	} {
+		f := fz
+		if i%2 == 1 {
+			f = fu
+		}
+		coq, text := runWrite(rep, len(cases), wcase{f: f, z: pr.z, blob: []byte{}, declHash: emptySha, declSize: 0, nameOK: true,
+			msgs: []msg{{name: wname("", pr.z, emptySha, 0, ""), data: pr.data, fin: true}}, what: pr.what})
+		add(coq, text, true)
+		rep.Count("write.empty-digest-probe")
 	}
 
 	// ---- exhaustive part: every cut of a 1..3 byte payload into 1..4 messages, finish_write
